@@ -118,6 +118,33 @@ def gen_real_reload(rng):
     sched = ''.join(str(rng.randrange(nthreads)) for _ in range(rng.choice([8, 16, 30])))
     return 'pre: ' + ' , '.join(pre) + ' | ' + ' | '.join(threads) + ' ;; ' + sched
 
+def gen_single_collector(rng):
+    """exactly ONE live collector in the process, the default of worker threads only; a control thread without any default
+    reloads it through the Handle (the usual deployment of a reload handle): callsites the workers have already hit must be
+    re-judged by the new value"""
+    css = rng.sample(range(30), rng.choice([1, 2, 3]))
+    nthreads = rng.choice([2, 2, 3])
+    threads = []
+    for t in range(nthreads):
+        if t == nthreads - 1:
+            ops = ['rl 21 %s' % _c04.spec_for(rng, css)] + (['rl 21 %s' % _c04.spec_for(rng, css)] if rng.random() < 0.3 else [])
+            threads.append(' , '.join(ops))
+        else:
+            ops = ['hit %d' % rng.choice(css) for _ in range(rng.choice([1, 2, 3]))]
+            threads.append('@21 ' + ' , '.join(ops))
+    sched = ''.join(str(rng.randrange(nthreads)) for _ in range(rng.choice([8, 16, 30])))
+    return 'pre: newr 21 %s | ' % _c04.spec_for(rng, css) + ' | '.join(threads) + ' ;; ' + sched
+
+def systematic_single_collector(tier):
+    """one collector, a worker that has registered a callsite under a value rejecting it, a control thread reloading to a value
+    accepting it (and the reverse): every schedule with at most 1 (thorough: 2) preemptions"""
+    N = 'n' * 30; A = 'a' + 'n' * 29
+    res = []
+    for old, new in ((N + 'h-', A + 'h-'), (A + 'h-', N + 'h1'), ('s' + 'n' * 29 + 'h-', A + 'h-')):
+        base = 'pre: newr 21 %s | @21 hit 0 , hit 0 | rl 21 %s' % (old, new)
+        res += [base + ' ;; ' + sch for sch in _c04.preemption_schedules(2, [11, 5], 1 if tier == 'quick' else 2)]
+    return res
+
 def systematic_real_reload(tier):
     """a registered callsite, then two overlapping reloads on two threads: every schedule with at most 1 (thorough: 2) preemptions"""
     N = 'n' * 30; A = 'a' + 'n' * 29
@@ -146,7 +173,8 @@ def extra(tier, seed, rng, res, broken):
     n = 60 if (tier == 'quick' and not broken) else 600
     deep = 'quick' if (tier == 'quick' and not broken) else 'thorough'
     cases = M.corpus_cases('C12', 'race') + [_c04.gen_scenario(rng, force_mut=True) for _ in range(n)] + \
-            [gen_real_reload(rng) for _ in range(n // 2)] + systematic_real_reload(deep) + systematic_racing_emission(deep)
+            [gen_real_reload(rng) for _ in range(n // 2)] + [gen_single_collector(rng) for _ in range(n // 3)] + \
+            systematic_real_reload(deep) + systematic_racing_emission(deep) + systematic_single_collector(deep)
     outs, err = M.run_per_process([M.bin_path('h_race')], cases, timeout=30)
     if err:
         res.errors.append('race stream: %s' % err); return
